@@ -495,7 +495,7 @@ class GridSpec(H.Spec):
         for k, v in sorted(vars(g).items()):
             if k in ('_row', '_index', 'metadata', 'column', '_version', '_version_given'):
                 continue
-            extra.append((k, repr(v)[:200]))          # any further hidden attribute (memo, cache) a refactor may add
+            extra.append((k, H.describe_attr(g, v)))  # any further hidden attribute (memo, cache) a refactor may add, never by address
         return (labels, hidden, bool(getattr(g, '_version_given', True)), str(g.version), tuple(extra))
 
 
@@ -615,7 +615,9 @@ def run(ctx, prop):
     factory = {('C14', True): C14Quick, ('C14', False): C14Thorough, ('C15', True): C15Quick, ('C15', False): C15Thorough}[(prop, ctx.quick)]
     depth = 4 if ctx.quick else 6
     states = [(['fresh'], [])]
-    st, info = H.bfs(factory, depth=depth, seed=ctx.seed, jobs=ctx.jobs, collect=states)
+    st, info = H.bfs(factory, depth=depth, seed=ctx.seed, jobs=ctx.jobs, collect=states, max_states=400000)
+    if info.get('capped'):
+        raise HarnessError('more than 400000 distinct states (over 100 times the space on the pinned tree): hidden state the canonical key cannot merge')
     pair_states = [(r, h) for r, h in states if r[0] in ('fresh', 'fresh-unversioned') and len(h) <= (2 if ctx.quick else 3)]
     from mc.explore import pmap, chunks
     for part in pmap(aliasing_task, [(factory, c) for c in chunks(pair_states, ctx.jobs * 2)], ctx.jobs):
